@@ -22,7 +22,7 @@ func main() {
 	name := a[1]
 	var inputs, params, outputs, extras []string
 	sep := " "
-	pad := 0
+	pad, head := 0, 0
 	for i := 2; i < len(a); i++ {
 		next := func() string {
 			i++
@@ -63,6 +63,8 @@ func main() {
 			extras = append(extras, next())
 		case "-n":
 			pad, _ = strconv.Atoi(next())
+		case "-head":
+			head, _ = strconv.Atoi(next())
 		case "-barrier", "-bgroup":
 			next()
 		default:
@@ -76,6 +78,9 @@ func main() {
 		if err != nil {
 			fmt.Fprintf(os.Stderr, "op %s: cannot open input %s: %v\n", name, p, err)
 			os.Exit(1)
+		}
+		if head > 0 && len(b) > head {
+			b = b[:head]
 		}
 		data = append(data, b)
 	}
